@@ -291,6 +291,16 @@ class HeatConsumer(BranchWOInternalsComponent):
         tout = branch_pit[f:t, TOUTINIT]
         res_table['deltat_k'].values[:] = t_from - tout
 
+        # a consumer with fixed return temperature extracts the heat that results from its mass flow and its
+        # actual inlet temperature, which differs from the set point if the mass flow was derived from other
+        # temperatures (sequential calculation)
+        if mode in ["heat", "sequential", "bidirectional"]:
+            consumer_array = get_component_array(net, cls.table_name(), only_active=False)
+            mask = consumer_array[:, cls.MODE] == cls.QE_TR
+            if np.any(mask):
+                cp = get_branch_cp(get_fluid(net), node_pit, branch_pit[f:t])
+                res_table['qext_w'].values[mask] = (cp * branch_pit[f:t, MDOTINIT] * (t_from - tout))[mask]
+
         # consumers that are out of service or not supplied do not have results
         inactive = ~get_lookup(net, "branch", "active_hydraulics")[f:t]
         res_table['qext_w'].values[inactive] = np.nan
